@@ -35,6 +35,27 @@ pub fn anchor(dts: &[Ticks], deltas: &[u32]) -> Result<u64, (usize, u64, Ticks)>
     Err(best.unwrap())
 }
 
+/// Every candidate of D_0 that satisfies the decode-time constraints (there can be two when the
+/// first timestamp sits on a rounding tie; later clauses must hold for at least one of them).
+pub fn anchors(dts: &[Ticks], deltas: &[u32]) -> Vec<u64> {
+    dts[0]
+        .candidates()
+        .into_iter()
+        .filter(|&d0| {
+            let mut cur = d0;
+            for (i, t) in dts.iter().enumerate() {
+                if !t.admits(cur) {
+                    return false;
+                }
+                if i < deltas.len() {
+                    cur += deltas[i] as u64;
+                }
+            }
+            true
+        })
+        .collect()
+}
+
 pub fn check(a: &Analysis, obs: &mut Obs) -> Vec<Violation> {
     let mut out = Vec::new();
     if !a.finished_ok() {
@@ -52,29 +73,50 @@ pub fn check(a: &Analysis, obs: &mut Obs) -> Vec<Violation> {
             let dts: Vec<Ticks> = lv.iter().map(|f| f.dts).collect();
             let deltas: Vec<u32> = vt.samples.iter().map(|s| s.dur).collect();
             match anchor(&dts, &deltas[..n - 1]) {
-                Ok(d0) => {
-                    // composition offsets
-                    let mut cur = d0;
+                Ok(_) => {
+                    // composition offsets: must be consistent with one admissible anchor
                     let mut any_expected_nonzero = false;
-                    for (i, (s, f)) in vt.samples.iter().zip(lv.iter()).enumerate() {
-                        if let (Some(p), Some(d)) = (f.pts.lo(), f.dts.lo()) {
-                            if (p as i128 - d as i128).abs() >= i32::MAX as i128 {
-                                obs.count("ctts_clause_delegated_to_C16(|pts-dts| >= 2^31)", 1);
+                    let mut first_fail: Option<Violation> = None;
+                    let mut ok = false;
+                    for d0 in anchors(&dts, &deltas[..n - 1]) {
+                        let mut cur = d0;
+                        let mut fail = None;
+                        let mut nonzero = false;
+                        for (i, (s, f)) in vt.samples.iter().zip(lv.iter()).enumerate() {
+                            if let (Some(p), Some(d)) = (f.pts.lo(), f.dts.lo()) {
+                                if (p as i128 - d as i128).abs() >= i32::MAX as i128 {
+                                    obs.count("ctts_clause_delegated_to_C16(|pts-dts| >= 2^31)", 1);
+                                    break;
+                                }
+                            }
+                            let comp = cur as i64 + s.cts_off;
+                            if comp < 0 || !f.pts.admits(comp as u64) {
+                                fail = Some(v(
+                                    "video|ctts-offset".into(),
+                                    format!("sample {}: decode tick {} + composition offset {} = {} but submitted pts {:?}s = {:?} ticks", i + 1, cur, s.cts_off, comp, f.pts_s, f.pts),
+                                ));
                                 break;
                             }
+                            if !f.pts.admits(cur) {
+                                nonzero = true;
+                            }
+                            cur += s.dur as u64;
                         }
-                        let comp = cur as i64 + s.cts_off;
-                        if comp < 0 || !f.pts.admits(comp as u64) {
-                            out.push(v(
-                                "video|ctts-offset".into(),
-                                format!("sample {}: decode tick {} + composition offset {} = {} but submitted pts {:?}s = {:?} ticks", i + 1, cur, s.cts_off, comp, f.pts_s, f.pts),
-                            ));
-                            break;
+                        match fail {
+                            None => {
+                                ok = true;
+                                any_expected_nonzero = nonzero;
+                                break;
+                            }
+                            Some(f) => {
+                                first_fail.get_or_insert(f);
+                            }
                         }
-                        if !f.pts.admits(cur) {
-                            any_expected_nonzero = true;
+                    }
+                    if !ok {
+                        if let Some(f) = first_fail {
+                            out.push(f);
                         }
-                        cur += s.dur as u64;
                     }
                     match &vt.ctts {
                         Some((ver, ent)) => {
